@@ -106,6 +106,13 @@ class C02(SCheck):
                 for s, k in zip(srcs, kinds):
                     if k == "d":
                         edits.append(gen.f_op("%s/new%d" % (s, j), r.randrange(0, fcap), pat=r.randrange(1, 1 << 30)))
+                        if r.random() < 0.25:
+                            # somebody replaced a copied file in the destination by a link back to its source
+                            fs_ = [o["p"] for o in ops if o.get("op") == "file" and o["p"].startswith(s + "/")]
+                            if fs_ and not dest_link and not use_T and not use_td:
+                                f0 = r.choice(fs_)
+                                mapped = ("dst/" + f0) if dstate in ("empty", "populated") else ("dst" + f0[len(s):])
+                                edits.append(gen.l_op(mapped, "$ROOT/" + f0, if_file=True))
                         if relink:
                             for lop in [o for o in ops if o.get("op") == "symlink" and o["p"].startswith(s + "/")][:2]:
                                 edits.append({"op": "rm", "p": lop["p"]})
